@@ -1030,6 +1030,14 @@ func (it *Interp) escapedPanic(gp *GoPanic) {
 	// the path condition is feasible (every fork was checked) unless unknowns were kept
 	r, err := it.S.Check(append(append([]*smt.Term{}, it.P.PC...), it.P.Exact...), it.Cfg.AssertTimeout)
 	if err != nil || r == smt.Unknown {
+		// the solver cannot decide whether this panicking path is feasible: a concrete assignment satisfying the
+		// whole path condition shows that it is
+		if it.M.knownPanicID == "" {
+			if env := it.sampleWitnessN(it.C.True, 6000); env != nil {
+				it.recordViolationTape(label, "panic", fmt.Sprintf("panic escapes: %s (%s) at %s (path shown feasible by concrete evaluation)", gp.Msg, gp.Kind, gp.Pos), it.tapeFromEnv(env))
+				return
+			}
+		}
 		it.jr.Inconclusive = append(it.jr.Inconclusive, "panic path feasibility unknown: "+gp.Msg)
 		return
 	}
